@@ -21,3 +21,11 @@ Definition matcher_as_documented : Prop :=
   forall pat m, glob_match pat m = true <-> doc_match pat m.
 (* FALSE: Properties.leading_star_zero_refuted; and the bare pattern "*" never reaches the matcher
    (Properties.bare_star_refuted).  Proved instead: Properties.glob_match_spec (exact semantics). *)
+
+(* Inline comments are a source for per-module settings only: a non-per-module option is refused, as it is
+   in a per-module config section ("Per-module sections should only specify per-module flags"). *)
+From C17 Require Import ProofsFlags ProofsValues.
+From Gen Require Import Flags.
+Definition inline_only_per_module : Prop :=
+  forall k d inv, inl k = IAccept d inv -> In d per_module_options.
+(* FALSE: Properties.inline_accepts_global_options (parse_mypy_comments never consults PER_MODULE_OPTIONS). *)
